@@ -53,8 +53,8 @@ theorem pinv_step {cfg : Config} {w : World} (hp : PInv cfg w) (op : Op) (hpo : 
     rcases step_ack_cases cfg w p a with ⟨ch', _, hstep⟩ | ⟨hsame, _⟩
     · rw [hstep]; exact hp
     · rw [hsame]; exact hp
-  | timeout p =>
-    rcases step_timeout_cases cfg w p with ⟨ch', _, hstep⟩ | ⟨hsame, _⟩
+  | timeout p oc =>
+    rcases step_timeout_cases cfg w p oc with ⟨ch', _, hstep⟩ | ⟨hsame, _⟩
     · rw [hstep]; exact hp
     · rw [hsame]; exact hp
   | setParams c s r => exact hp
@@ -168,10 +168,10 @@ theorem conserve_step {cfg : Config} (ha : Assm cfg) {w : World} (hi : Inv cfg w
         · intro q _ hne
           simp only [pending, pendingIn, World.setChain, contains_cons_ne _ _ _ hne]
     · rw [hsame]; exact hc
-  | timeout p =>
-    obtain ⟨hps, hnr, hna, hnt⟩ := hg
+  | timeout p oc =>
+    obtain ⟨hps, hnr, hna, hnt, _⟩ := hg
     have hwas : pending w p = true := by simp [pending, pendingIn, World.setChain, hnr true, hnt, hna]
-    rcases step_timeout_cases cfg w p with ⟨ch', hto, hstep⟩ | ⟨hsame, _⟩
+    rcases step_timeout_cases cfg w p oc with ⟨ch', hto, hstep⟩ | ⟨hsame, _⟩
     · rw [hstep]
       simp only
       refine conserve_refund ha hwi hl hpi hc hps (timeoutPacket_ok hto) rfl rfl hwas ?_ ?_
